@@ -115,6 +115,28 @@ def structured_sources():
                     yield pre + decl + nl + b'y = "' + p + b'"'
 
 
+def codec_name_sources():
+    """a PEP 263 declaration naming every codec alias the registry knows (as spelled there, with '-' for '_', in upper
+    case) and the Emacs-style end-of-line suffixes CPython's get_normal_name strips (utf-8-unix, latin-1-dos, ...), on line 1
+    or 2, with payload bytes on which the 8-bit code pages differ from each other"""
+    import encodings.aliases
+    names = set(encodings.aliases.aliases) | set(encodings.aliases.aliases.values())
+    names |= {n.replace('_', '-') for n in names}
+    for base in ('utf-8', 'utf8', 'latin-1', 'iso-8859-1', 'iso-latin-1', 'iso-8859-15', 'latin_1', 'UTF_8', 'Latin-1'):
+        for suf in ('-unix', '-dos', '-mac', '-x', 'x', '-', '-unix-dos'):
+            names.add(base + suf)
+    names |= {n.upper() for n in list(names) if len(n) < 14}
+    pays = [b'\xa4\xa6\xbc', b'\xe9', b'\xc3\xa9', b'\xff', b'e']
+    for n in sorted(names):
+        try:
+            nb = n.encode('ascii')
+        except UnicodeEncodeError:
+            continue
+        for p in pays:
+            yield b'# -*- coding: ' + nb + b' -*-\ny = "' + p + b'"\n'
+        yield b'#!/bin/sh\n# vim: set fileencoding=' + nb + b' :\ny = "\xa4\xe9"\n'
+
+
 def oracle_selfcheck():
     """The reference above against the real compiler: for sources `...\\ny = "<payload>"` the value of y after
     exec(compile(bytes)) must be the payload as decoded by the reference.  -> (checked, disagreements)"""
@@ -140,7 +162,7 @@ def oracle_selfcheck():
 def work_structured(_):
     fails = {}
     cnt = 0
-    for b in structured_sources():
+    for b in itertools.chain(structured_sources(), codec_name_sources()):
         cnt += 1
         for ob, sig, detail in check_bytes(b):
             fails.setdefault((ob, sig), dict(ob=ob, sig=sig, detail=detail, inp=repr(b), count=0))['count'] += 1
